@@ -144,11 +144,14 @@ package ring
 //@   ensures forall i :: 0 <= i && i < old(cnt(rb)) ==> at(rb, i) == old(at(rb, i))
 //@   ensures forall j :: 0 <= j && j < n ==> at(rb, old(cnt(rb)) + j) == rdata[ref(r)][old(rpos[ref(r)]) + j]
 //@   ensures same(rb.buf, old(rb.buf)) || fresh(rb.buf)
+// growth keeps the bytes read so far where the invariant says they are (intermediate assertion: the content clause restated for the new array)
+//@   assert after grow #1: forall i :: old(cnt(rb)) <= i && i < old(cnt(rb)) + n ==> at(rb, i) == rdata[ref(r)][old(rpos[ref(r)]) + i - old(cnt(rb))]
 //@   loop 1:
 //@     invariant wf(rb) && n >= 0 && (same(rb.buf, old(rb.buf)) || fresh(rb.buf))
 //@     invariant n == rpos[ref(r)] - old(rpos[ref(r)]) && cnt(rb) == old(cnt(rb)) + n
 //@     invariant forall i :: 0 <= i && i < old(cnt(rb)) ==> at(rb, i) == old(at(rb, i))
 //@     invariant forall j :: 0 <= j && j < n ==> at(rb, old(cnt(rb)) + j) == rdata[ref(r)][old(rpos[ref(r)]) + j]
+//@     invariant forall i :: old(cnt(rb)) <= i && i < old(cnt(rb)) + n ==> at(rb, i) == rdata[ref(r)][old(rpos[ref(r)]) + i - old(cnt(rb))]
 //
 //@ func (rb *Buffer) WriteTo(w io.Writer) (n int64, err error)
 //@   requires wf(rb) && w != nil
